@@ -883,6 +883,13 @@ ws_read_finish_str(nni_ws *ws)
 		while ((frame != NULL) && (niov != 0)) {
 			size_t n;
 
+			if (iov->iov_len == 0) {
+				// an empty element holds nothing; skip it
+				// (we would never get past it otherwise)
+				iov++;
+				niov--;
+				continue;
+			}
 			if ((n = frame->len) > iov->iov_len) {
 				// This eats the entire iov.
 				n = iov->iov_len;
